@@ -82,6 +82,19 @@ Lemma leaf_reg_reg1_if_ngp_immediate_ok r i now :
   (set_hs r p pt t n, match produced with Some _ => [(Reg.K_REG1, i, Reg.r_id r)] | None => [] end).
 Proof. reg_auto. Qed.
 
+(** the registration driver of housekeeping: new state, the REG1 target (if a REG1 is produced) and the id that is
+    broadcast (if a REG2 broadcast is produced); the returned [RegDriverSends] is the pair of its two fields *)
+Lemma leaf_reg_driver_pending_sends_ok r now :
+  Reg.reg_driver r now =
+  let '(p, pt, fl, n, (s1, b)) :=
+    leaf_reg_driver_pending_sends (Reg.r_pending r) (Reg.r_ptimeout r) (Reg.r_active r) (Reg.r_flag r) (Reg.r_target r)
+                                  (Reg.r_next r) now in
+  (Reg.mkReg (Reg.r_id r) p pt (Reg.r_active r) (Reg.r_hasconn r) fl (Reg.r_target r) n
+             (Reg.r_pstate r) (Reg.r_pid r) (Reg.r_probes r),
+   match s1 with Some (idx, _) => Some idx | None => None end,
+   match b with Some _ => Some (Reg.r_id r) | None => None end).
+Proof. reg_auto. Qed.
+
 (** REG2: [len] is the datagram length; the id is adopted (the model's [tag] = bytes 2..2+SRTLA_ID_LEN of the
     datagram) exactly when the generated function copies a range of the datagram into [srtla_id] *)
 Lemma leaf_reg_handle_reg2_ok r i len tag now :
